@@ -12,7 +12,7 @@ META = dict(
                "C09_insert_values, C09_insert_new_values, C09_remove_keys (exactly the listed keys go, order kept, count returned), C09_remove_element_clears, "
                "C09_values_by_keys (exact characterisation of the stable sort by request position, no side condition) and C09_values_by_keys_distinct (requested pairs in request order), "
                "C09_select_values (explicit ids: NotFound iff some id misses a requested key; search: skipped; full selection in map order), C09_select_keys, C09_select_key_count, C09_new_element_empty (a new node/edge reusing a slot starts without properties, under the joint invariant). "
-               "HISTORY LEVEL (PARTIAL, conditional): C09_transaction_partial and C09_history_partial show that the joint invariant Inv (graph well-formed [C08] + alias map one-to-one on existing nodes + no duplicate keys + exact indexes) is kept by every mutating query whatever its outcome, at every state inside a running transaction, and after every history from the empty database in which no query fails; they assume `traversal_live rv_fixed` (breadth/depth-first and path searches return only existing elements; index searches and element scans are discharged) and do not cover the state after the rollback of a failing query (needs C13). "
+               "HISTORY LEVEL (UNCONDITIONAL): C09_transaction and C09_history show that the joint invariant Inv (graph well-formed [C08] + alias map one-to-one on existing nodes + no duplicate keys + exact indexes) is kept by every mutating query whatever its outcome, at every state inside a running transaction, and after every history from the empty database in which no query fails, for the revision of /repo and histories whose insert lists have distinct keys (query_ok, C09's quantifier). The former hypothesis `traversal_live rv_fixed` is DISCHARGED: theories/TraversalLiveProofs.v proves from the C14 / C17 / C18 developments, under the graph invariant wf, that breadth/depth-first searches (any conditions, any limit/offset) and path searches from existing origins return only existing elements, hence every id returned by any search exists (C10_traversal_live); the old hypothesis was false as literally stated (its path clause did not ask for an existing origin: C10_traversal_live_refuted), so the old *_partial theorems were vacuous and are kept for the record only. States after the ROLLBACK of failing queries / transactions are covered by C13_history_atomic / C13_history_invariant (coq/Props/C13.v): Inv holds at every point of every history of queries and transactions, failing or not (same query_ok quantifier, capacity <= 2^63); pinned here as C09_history_all, with C09_abstract_database = what Inv gives a user in one place (resolved ids exist; aliases one-to-one names of existing nodes; unique keys, properties only on existing elements; index searches exact; every id returned by any search exists; edges join existing nodes, adjacency lists and degree counters exact, unconditioned breadth/depth-first searches return exactly the reachable elements; any element can be removed). "
                               "edges, removals, id reuse; values of all nine kinds) on the real database and on the extracted model and comparing every query result and periodic full dumps.",
     design_ref="DESIGN.md §5 C09",
     level_note="Trusted: Coq kernel, extraction (ExtrOcamlBasic), OCaml driver, Rust harness/generators. Theorems are about the model (theories/DbModel.v etc.); "
